@@ -25,12 +25,14 @@ CIDS = {
     "fixed": [["D", "Format", "Fixed"], ["D", "Line delimiter", "LF"], ["F", "id", "", "", "2", "Integer", "0...99"], ["F", "name", "", "", "2"],
               ["C", "uniq", "IsUnique", "id"], ["C", "few", "DistinctCount", "name < 3"]],
 }
+# fixed data whose lines end in a lone CR, read under the default line delimiter 'any' (the reader has to look one character ahead)
+CIDS["fixed_cr"] = [row for row in CIDS["fixed"] if row[1] != "Line delimiter"]
 WIDTHS = [2, 2]
 
 
 def text_of(kind, name):
-    if kind == "fixed":
-        return "".join("".join(c.ljust(w) for c, w in zip(row, WIDTHS)) + "\n" for row in DATA[name])
+    if kind.startswith("fixed"):
+        return "".join("".join(c.ljust(w) for c, w in zip(row, WIDTHS)) + ("\r" if kind == "fixed_cr" else "\n") for row in DATA[name])
     return "".join(",".join(row) + "\n" for row in DATA[name])
 
 
